@@ -161,7 +161,7 @@ def unit_many(a):
 # ------------------------------------------------------------------ (c') systematic fault combinations
 BLOCKS = {
     "step": ["  Given x"], "table-ok": ["   | a | b |", "   | c | d |"], "table-ragged": ["   | a | b |", "   | c |"], "tag-ok": [" @ok"], "tag-bad": [" @bad tag"],
-    "tag-bad2": ["  @x @y z"], "garbage": ["garbage"], "scenario": [" Scenario: s"], "examples": ["  Examples:"], "outline": [" Scenario Outline: o"], "comment": [" # c"],
+    "tag-bad2": ["  @x @y z"], "tag-space": [" @ ok @\tfine"], "tag-space-bad": ["@ a b"], "garbage": ["garbage"], "scenario": [" Scenario: s"], "examples": ["  Examples:"], "outline": [" Scenario Outline: o"], "comment": [" # c"],
     "blank": [""], "doc-open": ['   """'], "lang-bad": ["#language: xx"], "rule": [" Rule: r"], "background": [" Background:"], "feature": ["Feature: again"],
 }
 BLOCK_NAMES = sorted(BLOCKS)
